@@ -596,6 +596,7 @@ func runC08(r *ev.Run) {
 	})
 	runC08TrainLate(r)
 	runC08Schedules(r)
+	runC08Schedules2(r)
 }
 
 // runC08TrainLate: a store whose vector template needs training is opened UNTRAINED; documents without a vector
@@ -805,6 +806,53 @@ var schedulePoints = []string{
 
 var scheduleActions = []string{"add", "add-forcing-rotation", "search-all", "flush", "evict", "remove-newest", "flush-then-rotating-adds"}
 
+// second-level pause points by first action: the points that action passes through
+var schedulePoints2 = map[string][]string{
+	"add":                      {"memq.add.picked", "memtable.add.prelock", "memtable.add.locked"},
+	"add-forcing-rotation":     {"memq.add.picked", "memtable.add.prelock", "memtable.add.locked", "memq.rotate"},
+	"flush":                    {"flush.begin", "crash:flush.create.hybrid", "crash:flush.create.text", "crash:flush.written", "crash:flush.close.metadata", "crash:flush.close.hybrid", "crash:flush.added", "flush.registered", "flush.dropped"},
+	"flush-then-rotating-adds": {"flush.begin", "crash:flush.written", "crash:flush.added", "flush.registered", "flush.dropped", "memq.rotate"},
+	"search-all":               {"memq.list", "segmgr.list", "search.listed-memtables", "search.listed-segments", "segment.load.begin", "segment.load.instances", "segment.load.done"},
+	"remove-newest":            {"store.remove.picked"},
+}
+
+// runC08Schedules2: sampled depth-2 targeted schedules (DESIGN §3.5). The primary operation is paused at point P1 while
+// action A1 runs beside it; A1 is itself paused at P2 (a point on its own path) while A2 runs beside A1. Three
+// operations are in flight at once, each stopped between two of the store's critical sections. Same oracle as depth 1.
+func runC08Schedules2(r *ev.Run) { runDepth2Schedules(r, r.Pick(60, 900), true) }
+
+// withCompaction = false leaves out the first-level points inside compaction (C11: the recorded compaction finding F14
+// belongs to C08 / C10, so C11's schedules never compact)
+func runDepth2Schedules(r *ev.Run, n int, withCompaction bool) {
+	schedulePoints := schedulePoints
+	if !withCompaction {
+		var keep []string
+		for _, p := range schedulePoints {
+			if !strings.Contains(p, "compact") && p != "crash:delete.before" {
+				keep = append(keep, p)
+			}
+		}
+		schedulePoints = keep
+	}
+	ctl := newHookCtl()
+	ctl.install()
+	defer ctl.uninstall()
+	own := &ownership{owners: map[any]string{}, tmpl: map[any]bool{}}
+	firsts := []string{"add", "add-forcing-rotation", "flush", "flush-then-rotating-adds", "search-all", "remove-newest"}
+	sigs := map[string]bool{}
+	r.Cases("schedule2", n, func(i int, rng *rand.Rand) {
+		p1 := schedulePoints[rng.IntN(len(schedulePoints))]
+		a1 := firsts[rng.IntN(len(firsts))]
+		p2s := schedulePoints2[a1]
+		p2 := p2s[rng.IntN(len(p2s))]
+		a2 := scheduleActions[rng.IntN(len(scheduleActions))]
+		if sig := runOneSchedule(r, ctl, own, i, rng, p1, a1, p2, a2); sig != "" {
+			sigs[sig] = true
+		}
+	})
+	r.Extra("distinct_depth2_interleaving_signatures", len(sigs))
+}
+
 func runC08Schedules(r *ev.Run) {
 	reps := r.Pick(1, 6)
 	ctl := newHookCtl()
@@ -852,7 +900,13 @@ func runC08Schedules(r *ev.Run) {
 	}
 }
 
-func runOneSchedule(r *ev.Run, ctl *hookCtl, own *ownership, ci int, rng *rand.Rand, point, action string) (interleaving string) {
+func runOneSchedule(r *ev.Run, ctl *hookCtl, own *ownership, ci int, rng *rand.Rand, point, action string, second ...string) (interleaving string) {
+	// second = (point2, action2): depth-2 schedule — the action started beside the paused primary operation is itself
+	// paused at the first hit of point2 (whichever goroutine gets there first) while action2 runs beside it
+	stream, point2, action2 := "schedule", "", ""
+	if len(second) == 2 {
+		stream, point2, action2 = "schedule2", second[0], second[1]
+	}
 	p := storeParams{VecKind: "flat", Text: true, Meta: true, Dim: 3, Metric: comet.Euclidean, CompactionThreshold: 2,
 		MemtableSizeLimit: 700, FlushThreshold: 1 << 40}
 	pointLabel := point
@@ -887,6 +941,10 @@ func runOneSchedule(r *ev.Run, ctl *hookCtl, own *ownership, ci int, rng *rand.R
 		logMu.Lock()
 		l := append([]string(nil), log...)
 		logMu.Unlock()
+		if point2 != "" {
+			r.ViolationAt(stream, ci, sig, fmt.Sprintf("point=%s action=%s then point=%s action=%s: %s", pointLabel, action, point2, action2, what), map[string]any{"point": pointLabel, "action": action, "point2": point2, "action2": action2, "log": l})
+			return
+		}
 		r.ViolationAt("schedule", ci, sig, fmt.Sprintf("point=%s action=%s: %s", pointLabel, action, what), map[string]any{"point": pointLabel, "action": action, "log": l})
 	}
 	ids := newIDGen(rng)
@@ -955,62 +1013,84 @@ func runOneSchedule(r *ev.Run, ctl *hookCtl, own *ownership, ci int, rng *rand.R
 	add("prelude", false)
 	s.VerifEvictAllCaches()
 
-	var besideDone chan struct{}
-	inTime := false
+	var besideDone, beside2Done chan struct{}
+	inTime, inTime2 := false, false
+	var t2 *hookTarget
+	var b2mu sync.Mutex // the second target may fire on any goroutine
+	perform := func(action, tag string) {
+		switch action {
+		case "add":
+			add(tag, false)
+		case "add-forcing-rotation":
+			add(tag, true)
+		case "search-all":
+			checkStoreVisibility(repf, r, s, p, snap(), tag+":"+point, everNow, removedNow)
+		case "flush":
+			err := s.Flush()
+			addLog("%s: Flush -> %v", tag, err)
+			if err != nil {
+				repf("store.flush-error", tag+": "+err.Error())
+			}
+		case "flush-then-rotating-adds":
+			// a second flush pass overlapping the paused one, then writes that rotate the queue before it resumes
+			err := s.Flush()
+			addLog("%s: Flush -> %v", tag, err)
+			if err != nil {
+				repf("store.flush-error", tag+": "+err.Error())
+			}
+			for i := 0; i < 3; i++ {
+				add(tag, true)
+			}
+		case "evict":
+			s.VerifEvictAllCaches()
+			addLog("%s: evict", tag)
+		case "remove-newest":
+			mmu.Lock()
+			live := sortedKeys(m.liveSet())
+			var id uint32
+			found := false
+			for i := len(live) - 1; i >= 0; i-- {
+				if !removalBegun[live[i]] {
+					id, found = live[i], true
+					break
+				}
+			}
+			if found {
+				removalBegun[id] = true // from now on no search owes this document
+			}
+			mmu.Unlock()
+			if found {
+				err := s.Remove(id)
+				addLog("%s: remove %d -> %v", tag, id, err)
+				mmu.Lock()
+				if err == nil {
+					delete(m.live, id)
+					m.removed[id] = true
+				} else {
+					delete(removalBegun, id) // a refused removal changes nothing: owed again from here on
+				}
+				mmu.Unlock()
+			}
+		}
+	}
 	ctl.resetTrace(true)
+	grace := 150 * time.Millisecond
+	if point2 != "" {
+		grace = 450 * time.Millisecond // room for the nested pause
+	}
 	ctl.setTarget(point, 1, func(args []any) {
 		if r.Verbose() {
 			addLog("at %s: memtables=%d segments=%v", point, s.VerifMemtableCount(), s.VerifSegmentIDs())
 		}
-		inTime, besideDone = runBeside(func() {
-			switch action {
-			case "add":
-				add("beside", false)
-			case "add-forcing-rotation":
-				add("beside", true)
-			case "search-all":
-				checkStoreVisibility(repf, r, s, p, snap(), "beside:"+point, everNow, removedNow)
-			case "flush":
-				err := s.Flush()
-				addLog("beside: Flush -> %v", err)
-				if err != nil {
-					repf("store.flush-error", "beside: "+err.Error())
-				}
-			case "flush-then-rotating-adds":
-				// a second flush pass overlapping the paused one, then writes that rotate the queue before it resumes
-				err := s.Flush()
-				addLog("beside: Flush -> %v", err)
-				if err != nil {
-					repf("store.flush-error", "beside: "+err.Error())
-				}
-				for i := 0; i < 3; i++ {
-					add("beside", true)
-				}
-			case "evict":
-				s.VerifEvictAllCaches()
-				addLog("beside: evict")
-			case "remove-newest":
-				mmu.Lock()
-				live := sortedKeys(m.liveSet())
-				mmu.Unlock()
-				if len(live) > 0 {
-					id := live[len(live)-1]
-					mmu.Lock()
-					removalBegun[id] = true // from now on no search owes this document
-					mmu.Unlock()
-					err := s.Remove(id)
-					addLog("beside: remove %d -> %v", id, err)
-					mmu.Lock()
-					if err == nil {
-						delete(m.live, id)
-						m.removed[id] = true
-					} else {
-						delete(removalBegun, id) // a refused removal changes nothing: owed again from here on
-					}
-					mmu.Unlock()
-				}
-			}
-		}, 150*time.Millisecond)
+		if point2 != "" {
+			t2 = ctl.addTarget(point2, 1, func([]any) {
+				ok, ch := runBeside(func() { perform(action2, "beside2") }, 150*time.Millisecond)
+				b2mu.Lock()
+				inTime2, beside2Done = ok, ch
+				b2mu.Unlock()
+			})
+		}
+		inTime, besideDone = runBeside(func() { perform(action, "beside") }, grace)
 	})
 	// primary operations: drive every path that contains hook points
 	add("primary", false)
@@ -1054,10 +1134,45 @@ func runOneSchedule(r *ev.Run, ctl *hookCtl, own *ownership, ci int, rng *rand.R
 			return
 		}
 	}
+	fired2 := false
+	if t2 != nil {
+		fired2 = ctl.targetDone(t2)
+		ctl.clearTarget() // nothing may arm beside2Done from here on
+		var ch2 chan struct{}
+		for w := 0; fired2 && w < 400; w++ { // fired but runBeside still inside its grace period: wait for the channel to be published
+			b2mu.Lock()
+			ch2 = beside2Done
+			b2mu.Unlock()
+			if ch2 != nil {
+				break
+			}
+			time.Sleep(5 * time.Millisecond)
+		}
+		if fired2 && ch2 != nil {
+			select {
+			case <-ch2:
+			case <-time.After(60 * time.Second):
+				repf("store.deadlock-or-hang", "the second action (run beside the first one) did not finish within 60 s after everything else had returned")
+				return
+			}
+		}
+	}
 	if !fired {
 		r.Count("schedules:point-not-reached:"+pointLabel, 1)
 		r.Inconclusive("hook point not reached: " + pointLabel)
 		return
+	}
+	if point2 != "" {
+		if !fired2 {
+			// the first action never passed through point2 (nor did anything else): what ran is a depth-1 schedule
+			r.Count("schedules2:second-point-not-reached", 1)
+		} else if b2mu.Lock(); inTime2 {
+			b2mu.Unlock()
+			r.Count("schedules2:second-action-ran-while-first-action-paused", 1)
+		} else {
+			b2mu.Unlock()
+			r.Count("schedules2:second-action-blocked-until-resume", 1)
+		}
 	}
 	if inTime {
 		r.Count("schedules:action-ran-while-paused", 1)
@@ -1075,6 +1190,10 @@ func runOneSchedule(r *ev.Run, ctl *hookCtl, own *ownership, ci int, rng *rand.R
 		logMu.Unlock()
 	}
 	sig := ctl.signature()
+	if point2 != "" {
+		r.Eval(fired2, ev.Digest("sched2", pointLabel, action, point2, action2, sig))
+		return pointLabel + "/" + action + "/" + point2 + "/" + action2 + "/" + sig
+	}
 	r.Eval(true, ev.Digest("sched", pointLabel, action, sig))
 	return pointLabel + "/" + action + "/" + sig
 }
